@@ -331,8 +331,36 @@ def data_file_text_wiring(a):
                     "exactly the loader's result together with the file's own text and name", witness=False)
     if c:
         c["replay"] = replay_leading_whitespace(a)
+        if not c["replay"].get("reproduced"):
+            r2 = replay_trailing_text(a)
+            if r2.get("reproduced"):
+                c["replay"] = r2
         c["reproduced"] = c["replay"].get("reproduced", False)
         a.candidates.append(c)
+
+
+def replay_trailing_text(a):
+    """YAML documents whose LAST node is a block scalar: the line breaks that end the file belong to the scalar (clip keeps one, keep
+    keeps all, strip none); the value must be what the same scalar has when another key follows it"""
+    exe = a.cli()
+    if not exe:
+        return {"reproduced": False, "note": "native build failed"}
+    out = []
+    cases = [("s: |\n  echo hello\n", "s == /^echo hello\\n$/", "PASS"), ("s: |+\n  echo hello\n\n", "s == /^echo hello\\n\\n$/", "PASS"),
+             ("s: >\n  echo hello\n", "s == /^echo hello\\n$/", "PASS"), ("s: |-\n  echo hello\n", "s == /^echo hello$/", "PASS"),
+             ("s: |\n  echo hello\n", "s == /^echo hello$/", "FAIL"), ("s: |\n  echo hello\nz: 1\n", "s == /^echo hello\\n$/", "PASS"),
+             ("t: 1\ns: |\n  a\n  b\n", "s == /^a\\nb\\n$/", "PASS")]
+    for text, clause, exp in cases:
+        rc, rep, err = a.run_structured(exe, "rule r {\n  " + clause + "\n}\n", [text])
+        if not (rep and isinstance(rep, list) and rep):
+            out.append({"document": text, "clause": clause, "problem": "no report", "exit": rc})
+            continue
+        r_ = rep[0]
+        got = "PASS" if "r" in r_.get("compliant", []) else ("SKIP" if "r" in r_.get("not_applicable", []) else "FAIL")
+        if got != exp:
+            out.append({"document": text, "clause": clause, "expected": exp, "observed": got})
+    real = [o for o in out if "problem" not in o]
+    return {"reproduced": bool(real), "mismatches": out[:4]}
 
 
 def replay_leading_whitespace(a):
@@ -494,4 +522,4 @@ def replay_reported_values(a):
     return {"reproduced": bool(out), "mismatches": out[:5], "pairs_checked": npairs}
 
 
-SITES = {"C10": [path_construction, extend_usize_wiring, data_file_text_wiring, mark_to_location, report_value_rendering], "C11": [path_construction]}
+SITES = {"C10": [path_construction, extend_usize_wiring, data_file_text_wiring, mark_to_location, report_value_rendering], "C11": [path_construction, data_file_text_wiring]}
